@@ -68,20 +68,25 @@ def replay : List Ev → Nat → Acct → List Nat → Nat → Except String (Ac
          else .error s!"reject@{k}:release-mismatch"
        | [] => .error s!"reject@{k}:release-of-nothing")
 
-/-- Property monitor on the trace: limit used = declared limit, counter within it. -/
-def monitor (decl : Nat) : List Ev → Nat → Option String
-  | [], _ => none
-  | e :: rest, k =>
+/-- Property monitor on the trace, with its own bookkeeping (it does not trust the counter the
+    implementation reports): `held` = sizes of the messages accepted and not yet released, in
+    arrival order; the k-th release frees the k-th accepted message. Checks: the limit used is
+    the declared one; what is really held never exceeds it; nothing waits for space while
+    nothing is held. -/
+def monitor (decl : Nat) : List Ev → Nat → List Nat → Option String
+  | [], _, _ => none
+  | e :: rest, k, held =>
     match e with
-    | .a _ pending limit =>
+    | .a size _ limit =>
+      let held' := held ++ [size]
       if limit ≠ decl then some s!"limit-used-{limit}-declared-{decl}@{k}"
-      else if limit > 0 ∧ pending > limit then some s!"pending-{pending}-exceeds-limit-{limit}@{k}"
-      else monitor decl rest (k + 1)
-    | .w _ pending limit =>
+      else if limit > 0 ∧ held'.sum > limit then some s!"held-{held'.sum}-exceeds-limit-{limit}@{k}"
+      else monitor decl rest (k + 1) held'
+    | .w size _ limit =>
       if limit ≠ decl then some s!"limit-used-{limit}-declared-{decl}@{k}"
-      else if limit > 0 ∧ pending > limit then some s!"pending-{pending}-exceeds-limit-{limit}@{k}"
-      else monitor decl rest (k + 1)
-    | .r _ _ => monitor decl rest (k + 1)
+      else if held.sum + size ≤ limit then some s!"waits-although-{size}-fits-{held.sum}-of-{limit}@{k}"
+      else monitor decl rest (k + 1) held
+    | .r _ _ => monitor decl rest (k + 1) held.tail
 
 def stepSize? (recvSide : Char) (s : String) : Option (Option Nat) :=
   match s.splitOn ":" with
@@ -109,7 +114,7 @@ def handleLim (toks : List String) (impl : String) : Out :=
         match (if tr = "-" then some [] else (tr.splitOn ",").mapM parseEv?) with
         | none => { model := "reject:bad-trace", spec := want ++ " *" }
         | some evs =>
-          let spec := match monitor decl evs 0 with
+          let spec := match monitor decl evs 0 [] with
             | some why => "never:" ++ why
             | none => want ++ " *"
           match replay evs 0 Acct.init expct 0 with
